@@ -343,8 +343,8 @@ macro_rules! access_2d_slice_all_bool {
         (*$out).resize_vertically_mut(j, (&mut (*$out))[0].clone());
       }
       j = 0;
-      for i in 0..vec_ix.len() {
-        for k in 0..(*$source).ncols() {
+      for k in 0..(*$source).ncols() {
+        for i in 0..vec_ix.len() {
           if vec_ix[i] == true {
             (&mut (*$out))[j] = (*$source).index((i, k)).clone();
             j += 1;
